@@ -12,6 +12,18 @@ BASELINE = (
 
 # id -> (category, technique, level text, level note, design ref)
 CHECKS = {
+    "C10": (
+        "exploration",
+        "exhaustive enumeration of all convention-table pairs and single-label corruptions + "
+        "Hypothesis random bases/conventions against a label-dictionary reference",
+        "Every ordered pair of convention tables in the code base on every shared shell type, "
+        "every table entry, and every single-label corruption are enumerated completely "
+        "(duplicates sampled for shell types with more than 28 functions); random shell "
+        "sequences x three random conventions are searched with Hypothesis. Integer vectors are "
+        "compared exactly with an independent label -> (position, sign) reference.",
+        "canonical label sets taken from docs/basis.rst; any exception counts as a rejection",
+        "DESIGN.md section 5, C10",
+    ),
     "C20": (
         "exploration",
         "Hypothesis-generated matrices/cells against linear-algebra oracles; exhaustive "
